@@ -16,6 +16,10 @@ Line protocol (one reply line per request line):
       logprob / ctor: the flat vector produced from the matrix value[i,a] = i·t + a   (Gen logProbArg / ctorLoc)
       mean … base:    the n × t matrix (row-major) read from the flat vector loc[p] = p (Gen meanView …)
   C   reply: fromBatchMvn=<op>/<inter>;fromIndependentMvns=…;fromRepeatedMvn=…;branches=<names>
+  R <num_tasks> <k> <b1> … <bk>
+      reply: shape=<Gen fromRepeatedShape num_tasks [b1..bk]>;task_dim=<Gen fromRepeatedTaskDim>
+  P <nbatch> <task_dim>
+      reply: plan=<permutation of the mean, comma separated>/<block_dim> | plan=none     (Gen fromBatchMvnPlan nbatch (nbatch+1) task_dim)
   B <inter> <k> <b1> … <bk> <n> <t> <bare 0|1> <m> <COMP 1> … <COMP m>
       COMP := IDX | e                      (e = Ellipsis; `bare 1` = d[COMP] without a tuple, m = 1)
       reply: gen=<COV>;spec=<COV>     COV := none | <mvn|mt0|mt1>|<batch shape, comma separated>|<block>/<block>/…
@@ -149,11 +153,31 @@ def step (line : String) : String :=
         showInts ((List.range n).flatMap fun (i : Nat) => (List.range t).map fun (a : Nat) => M i a)
       s!"logprob={flatOf (Gen.MTIndex.logProbArg b n t val)};ctor={flatOf (Gen.MTIndex.ctorLoc b n t val)};" ++
       s!"mean={matOf (Gen.MTIndex.meanView b n t id)};variance={matOf (Gen.MTIndex.varianceView b n t id)};" ++
-      s!"rsample={matOf (Gen.MTIndex.rsampleView b n t id)};base={matOf (Gen.MTIndex.baseSamplesView b n t id)}"
+      s!"rsample={matOf (Gen.MTIndex.rsampleView b n t id)};base={matOf (Gen.MTIndex.baseSamplesView b n t id)};" ++
+      s!"basearg={flatOf (Gen.MTIndex.baseSamplesArg b n t val)}"
     | _, _, _ => "bad-request"
   | ["C"] =>
     s!"fromBatchMvn={showOp Gen.MTIndex.fromBatchMvn};fromIndependentMvns={showOp Gen.MTIndex.fromIndependentMvns};" ++
-    s!"fromRepeatedMvn={showOp Gen.MTIndex.fromRepeatedMvn};branches={",".intercalate Gen.MTIndex.branchNames}"
+    s!"fromRepeatedMvn={showOp Gen.MTIndex.fromRepeatedMvn};branches={",".intercalate Gen.MTIndex.branchNames};" ++
+    (let (sd, ud, cd, bd) := Gen.MTIndex.fromIndependentPlan
+     s!"indep={sd},{ud},{cd},{bd};") ++
+    s!"repeated={Gen.MTIndex.fromRepeatedTaskDim}/{showInts (Gen.MTIndex.fromRepeatedShape 7 [2, 3])};" ++
+    s!"di={Gen.MTIndex.diRowTask 0 1},{Gen.MTIndex.diColTask 0 1}"
+  | "R" :: nt :: k :: rest =>
+    match nt.toInt?, k.toNat? with
+    | some nt, some k =>
+      match takeNats k rest with
+      | some (bs, []) =>
+        s!"shape={showInts (Gen.MTIndex.fromRepeatedShape nt (bs.map fun (b : Nat) => (b : Int)))};task_dim={Gen.MTIndex.fromRepeatedTaskDim}"
+      | _ => "bad-request"
+    | _, _ => "bad-request"
+  | ["P", nb, td] =>
+    match nb.toInt?, td.toInt? with
+    | some nb, some td =>
+      match Gen.MTIndex.fromBatchMvnPlan nb (nb + 1) td with
+      | some (perm, bd) => s!"plan={showInts perm}/{bd}"
+      | none => "plan=none"
+    | _, _ => "bad-request"
   | _ => "bad-request"
 
 def main : IO Unit := Proto.main step
